@@ -343,3 +343,34 @@ def is_generator_function(node):
             continue
         stack.extend(_ast.iter_child_nodes(n))
     return False
+
+
+class CustomCheck:
+    """an obligation source that is not a symbolic execution of one function: structural (AST) obligations, Lean lemma
+    checks, and bounded stand-ins (bounded=True: labelled, never counted as proved)."""
+
+    def __init__(self, prop, name, fn, bounded=False, thorough_only=False, clause='', file=None):
+        self.prop, self.name, self.fn, self.bounded, self.thorough_only = prop, name, fn, bounded, thorough_only
+        self.clause, self.file, self.qual = clause, file, name
+        self.trusted, self.opts = [], {}
+
+    @property
+    def ident(self):
+        return '%s/%s' % (self.prop, self.name)
+
+    def run(self, opts):
+        t0 = time.time()
+        res = FucResult(self)
+        res.is_bounded = self.bounded
+        try:
+            self.fn(res, opts)
+        except Exception as e:
+            res.errors.append('custom check: %r\n%s' % (e, traceback.format_exc(limit=6)))
+        res.secs = time.time() - t0
+        return res
+
+
+def add_ob(res, name, ok, backend, detail=None, model=None, secs=0.0, path='-'):
+    """record one obligation decided outside the SMT solvers (AST inspection, Lean, enumeration)"""
+    res.obligations.append({'name': '%s/%s' % (res.ident, name), 'path': path, 'verdict': 'unsat' if ok else 'sat',
+                            'backend': backend, 'secs': secs, 'model': model, 'detail': detail, 'goal': detail})
